@@ -18,6 +18,7 @@ import (
 func init() { mon.Register("C07", buildC07) }
 
 var reDecimal = regexp.MustCompile(`^[+-]?[0-9]{1,18}$`)
+var reFloatLit = regexp.MustCompile(`^[+-]?[0-9]{1,15}(\.[0-9]{1,6})?$`)
 
 func manager(name string) variants.IVariantOperations {
 	if name == "safe" {
@@ -145,6 +146,15 @@ func c07Exec(c *mon.Case) {
 			return
 		}
 	}
+	if v.T == "S" && (T == "D" || T == "F") && reFloatLit.MatchString(v.V) {
+		if f, perr := strconv.ParseFloat(v.V, 64); perr == nil {
+			ok := (T == "D" && sameFloat(got.Double(), f)) || (T == "F" && sameFloat(float64(got.Float()), float64(float32(f))))
+			if !ok {
+				c.Failf("a decimal number string is not converted to the number it spells", "%s -> %s, expected %v", desc, got, f)
+				return
+			}
+		}
+	}
 	// numeric widenings have an exact meaning in the host language
 	wide := map[string]Val{}
 	switch v.T {
@@ -221,5 +231,69 @@ func buildC07(cfg *mon.Config) []*mon.Sub {
 		},
 		Exec: c07Exec,
 	}
-	return []*mon.Sub{pool, rnd}
+	reuse := &mon.Sub{
+		Name:  "one-manager-many-conversions",
+		Rule:  "seeded sequences of 4..40 conversions (values from the pool, a small set of colliding strings and numbers, every target type) performed on ONE manager instance (and, for half of the steps, on one re-used variant that is given its next value by Assign); after every step the outcome (type, value, error-ness) must equal that of a freshly constructed manager converting a freshly built value; distinct by hash",
+		Floor: 500,
+		Gen: func(emit func(string)) {
+			r := cfg.Rng("c07-reuse")
+			vals := append(valuePool(), vStr("1"), vStr("2"), vStr("1"), vStr("12"), vStr("34"), vInt(12), vInt(34), vBool(true), vObj(0), vArr(vInt(1)))
+			for i := 0; i < cfg.N(6000, 400000); i++ {
+				n := 4 + r.Intn(37)
+				var b strings.Builder
+				b.WriteString(mon.Pick(r, []string{"unsafe", "safe"}))
+				small := r.Chance(1, 2)
+				for k := 0; k < n; k++ {
+					v := mon.Pick(r, vals)
+					if small {
+						v = vals[len(vals)-10+r.Intn(10)]
+					}
+					T := mon.Pick(r, allTags)
+					if small {
+						T = mon.Pick(r, []string{"I", "L", "F", "D", "S"})
+					}
+					b.WriteString("\x00" + T + mon.Pick(r, []string{"n", "a"}) + encVals(v))
+				}
+				emit(b.String())
+			}
+		},
+		Exec: func(c *mon.Case) {
+			parts := strings.Split(c.Payload, "\x00")
+			mgr := manager(parts[0])
+			reused := variants.EmptyVariant()
+			var trace []string
+			for _, st := range parts[1:] {
+				T, mode, v := st[:1], st[1:2], decVals(st[2:])[0]
+				in := v.Variant()
+				if mode == "a" && v.T != "A" { // the same variant object, given its value by Assign
+					reused.Assign(in)
+					in = reused
+				}
+				obs := func(m variants.IVariantOperations, x *variants.Variant) string {
+					var r *variants.Variant
+					var err error
+					if p := mon.Try(func() { r, err = m.Convert(x, tagType[T]) }); p != nil {
+						return "PANIC " + p.Sig()
+					}
+					if err != nil {
+						return "error " + errCode(err)
+					}
+					s := snap(r).String()
+					if r != nil && T == "S" {
+						s += " / String()=" + r.String()
+					}
+					return s
+				}
+				trace = append(trace, fmt.Sprintf("Convert(%s, %s)%s", v, typeNames[T], map[string]string{"a": " on a re-used variant", "n": ""}[mode]))
+				got := obs(mgr, in)
+				want := obs(manager(parts[0]), v.Variant())
+				if got != want {
+					c.Failf(parts[0]+" manager: a conversion depends on what the manager (or the variant) was used for before", "sequence: %s\nfresh manager and value: %s\nre-used:                 %s", strings.Join(trace, "; "), want, got)
+					return
+				}
+			}
+			c.NonTrivial()
+		},
+	}
+	return []*mon.Sub{pool, rnd, reuse}
 }
